@@ -138,6 +138,10 @@ def classify(step):
             # KEEP_STRUCTURE merging moved memory children from a parent whose complete_cpuset is wider (it names a PU that was
             # disallowed and dropped at load) to its single child
             key = "keep-structure-merge-memory-child-wider-complete-cpuset"
+        elif k == "restrict" and (clauses == ["children-order"] or (not clauses and "prev_first" in asrt)) and "sets=offline" in (step["wf"] or ""):
+            # KEEP_STRUCTURE merging replaces parents (ordered by THEIR complete_cpuset) by their single children whose
+            # complete_cpusets, with offline PUs around, start elsewhere: the grand-parent's children are not re-sorted
+            key = "keep-structure-merge-children-order-offline-pus"
         elif k == "allow" and ck.get("flags") == "1" and clauses and all(c.startswith("allowed-") for c in clauses):
             key = "allow-all-copies-complete-sets"
         elif wf_bad:
